@@ -63,7 +63,7 @@ def run(tier, seed):
     from props.C08 import LAYCOMBOS
     jobs += [{'id': 'h_%d_%d_L%d' % (m, d, lay), 'harness': 'vh_hash', 'args': [2, m, d, lay], 'summaries': SUMM} for lay in (1, 2, 3, 4) for (m, d) in LAYCOMBOS]
     from props.C08 import TWICE
-    jobs += [{'id': 'tw_%d_%d_%d' % (m, d, mode), 'harness': 'vh_hash_twice', 'args': [2, m, d, mode], 'summaries': SUMM} for mode in (0, 1) for (m, d) in TWICE]
+    jobs += [{'id': 'tw_%d_%d_%d' % (m, d, mode), 'harness': 'vh_hash_twice', 'args': [2, m, d, mode], 'summaries': SUMM} for mode in (0, 1, 2) for (m, d) in TWICE]
     jobs += [{'id': 'nodst%d' % i, 'harness': 'vh_hash_nodst', 'args': [2, 3, i], 'summaries': SUMM} for i in (0, 1)]
     runs = ck.absorb(core.symx_parallel(HARNESS, jobs, chunks=12))
     ck.extra['_runs'] = runs
@@ -81,7 +81,7 @@ def run(tier, seed):
     for lay in (1, 2, 3, 4):
         for (m, d) in LAYCOMBOS:
             check_one(ck, R_['h_%d_%d_L%d' % (m, d, lay)], m, d, failures, lay)
-    for mode in (0, 1):
+    for mode in (0, 1, 2):
         for (m, d) in TWICE:
             check_one(ck, R_['tw_%d_%d_%d' % (m, d, mode)], m, d, failures, lay=0, label='second-call%d' % mode)
     # OS2IP split lemma
@@ -98,6 +98,9 @@ def run(tier, seed):
         cases = fallback.cases_for('C09', ck.seed)
         path = ck.save_replay({'property': 'C09', 'cases': cases, 'failed': failures[:10]})
         ok, out = core.go_test(path)
+        if ok:
+            path = ck.save_replay({'property': 'C09', 'cases': fallback.first_oversize('C09', ck.seed) + cases, 'failed': failures[:10], 'note': 'fresh process whose first hashing call uses an oversize DST'})
+            ok, out = core.go_test(path)
         if not ok and 'MISMATCH' in out:
             ck.violation('h2s', 'HashToScalar deviates from RFC 9380 (%s): %s' % ((failures or ['?'])[0], [l.strip() for l in out.splitlines() if 'MISMATCH' in l][:1]), path)
         else:
